@@ -212,7 +212,12 @@ func (st *symtab) run(sym int) []byte {
 	case sym >= 65 && sym < 70: // more bytes of such a value; may look like the rest of a frame header
 		r = randBytes(rng, st.lenT, nil)
 		if st.tailHdr {
-			l := []uint32{3, 100, 0x00100000, 0x20000000, 0x3fffffff, 0x40000001}[rng.Intn(6)]
+			// what a length field would hold there; the giant ones (a candidate frame makes ReadFrame allocate
+			// that much) are kept rare because zeroing the buffer dominates the run time
+			l := []uint32{3, 100, 4096, 0x00010000, 0x00100000, 0x02000000}[rng.Intn(6)]
+			if rng.Intn(10) == 0 {
+				l = []uint32{0x20000000, 0x3fffffff, 0x40000000, 0x40000001}[rng.Intn(4)]
+			}
 			binary.LittleEndian.PutUint32(r[0:4], l)
 			for i := 0; i < 4; i++ {
 				if r[i] == 0xA5 {
